@@ -84,7 +84,13 @@ impl DealerSocketOutgoingProcessor {
         );
 
         match self.outgoing_orchestrator.route_message(zmtp_frames_for_logical_message, false).await {
-          Ok(()) => {}
+          Ok(()) => {
+            // A notification is a single stored permit, however many messages were queued meanwhile:
+            // keep going until the queue is empty instead of waiting for some later event.
+            if !self.pending_queue.lock().await.is_empty() {
+              self.queue_activity_notifier.notify_one();
+            }
+          }
           Err((returned, _)) => {
             tracing::debug!(
               "[DealerProc {}] route_message failed (all peers full or no peers). Re-queuing.",
